@@ -236,7 +236,7 @@ class Ctx:
                 os.remove(vo)
         if self.tier == "thorough":
             # clean rebuild of this property's directories
-            for sd in [pid] + list(extra_dirs):
+            for sd in [pid]:   # own directory only: a dependency's files belong to that property's check
                 for root, _, files in os.walk(os.path.join(COQ, sd)):
                     for fn in files:
                         if fn.endswith((".vo", ".vok", ".vos", ".glob")):
@@ -281,11 +281,25 @@ class Ctx:
         return rc == 0 and discharged == len(theorems)
 
     def coqchk(self, mods):
+        """independent re-check of the compiled files; runs on a private copy of the .vo files so that it
+        neither holds the tree lock for minutes nor races with another check's rebuild"""
+        import shutil
+        cp = os.path.join(BUILD, "coqchk_%s_%d" % (self.pid, os.getpid()))
         lk = self._lock()
         try:
-            rc, out = sh(["coqchk", "-silent", "-o", "-R", COQ, "CJ"] + mods, cwd=COQ, timeout=3000)
+            if os.path.exists(cp):
+                shutil.rmtree(cp)
+            for sd in ["Common", self.pid] + [d for d in self.extra_dirs if d != self.pid]:
+                for root, _, files in os.walk(os.path.join(COQ, sd)):
+                    for fn in files:
+                        if fn.endswith(".vo"):
+                            dst = os.path.join(cp, os.path.relpath(root, COQ))
+                            os.makedirs(dst, exist_ok=True)
+                            shutil.copy(os.path.join(root, fn), dst)
         finally:
             lk.close()
+        rc, out = sh(["coqchk", "-silent", "-o", "-R", cp, "CJ"] + mods, cwd=cp, timeout=3000)
+        shutil.rmtree(cp, ignore_errors=True)
         ax = re.findall(r"^\s+(\S+)$", out.split("Axioms:")[-1], flags=re.M) if "Axioms:" in out else []
         mine = [a for a in ax if a.startswith("CJ.")]
         self.cov["coqchk"] = {"rc": rc, "axioms_listed": ax[:40], "tail": out[-400:]}
